@@ -286,7 +286,26 @@ async fn run_inner(certs: &Certs, c: &Case) -> Outcome {
                         let mut warm = Err("?".to_string());
                         for attempt in 0..2 {
                             let body = format!("o{oi}-clone-try{attempt}");
-                            warm = match tokio::time::timeout(Duration::from_secs(20), q2.request(body.clone())).await {
+                            // the clone's first request after the outage (its own recovery) is made
+                            // while the already recovered original has a slowly answered request in
+                            // flight: one stream's recovery must not cost another its reply
+                            let slow_body = format!("o{oi}-slow-original{attempt}");
+                            let (slow, first) = tokio::join!(
+                                tokio::time::timeout(Duration::from_secs(20), q.request(slow_body.clone())),
+                                async {
+                                    tokio::time::sleep(Duration::from_millis(40)).await;
+                                    tokio::time::timeout(Duration::from_secs(20), q2.request(body.clone())).await
+                                }
+                            );
+                            match slow {
+                                Err(_) => res = Err(HANG.into()),
+                                // (answered after 150 ms against a 300 ms timeout: under load it may time out)
+                                Ok(Err(e)) if e.to_string().contains("timed out") => {}
+                                Ok(Err(e)) => res = Err(format!("request in flight on the recovered original while its clone recovers: {e}")),
+                                Ok(Ok(v)) => if v != format!("echo:{slow_body}") { res = Err(format!("WRONG reply: the original asked {slow_body:?} and got {v:?}")) },
+                            }
+                            if res.is_err() { break; }
+                            warm = match first {
                                 Err(_) => Err(HANG.into()),
                                 Ok(Err(e)) => Err(e.to_string()),
                                 Ok(Ok(v)) => if v == format!("echo:{body}") { Ok(()) } else { Err(format!("WRONG reply {v}")) },
@@ -294,7 +313,8 @@ async fn run_inner(certs: &Certs, c: &Case) -> Outcome {
                             if attempt == 0 && matches!(&warm, Err(e) if e.contains("timed out")) { continue; }
                             break;
                         }
-                        if let Err(e) = warm {
+                        if res.is_err() {
+                        } else if let Err(e) = warm {
                             res = Err(format!("clone: {e}"));
                         } else {
                             for round in 0..3 {
@@ -416,7 +436,7 @@ pub fn strategy() -> BoxedStrategy<Case> {
 }
 
 pub fn run(ctx: &mut Ctx) {
-    ctx.rule = "stream kind in {publisher, subscriber, requestor, replier} with generated settings (topic, retention, operations), backoff (constant/linear/exponential, step 1-5 ms, max_attempts 0-4, optional cap) and a fault script of 0-6 outages (server-side connection close), each placed after a generated amount of traffic, with 0..max+1 failing reconnect attempts (connection accepted then dropped, or registration answered with the retryable REPLIER_ALREADY_BOUND) before one succeeds, or a non-retryable error frame; against a scripted fake server built from the real server's TLS configuration; oracle: exact attempt accounting (k+1 on recovery, exactly max_attempts on exhaustion, k+1 before a fatal answer), identical re-registration frame, traffic works after recovery, too-many-retries / the unrecoverable error is reported instead of hanging; non-trivial = >=2 outages survived, or an outage with >=1 failing attempt, or exhaustion".into();
+    ctx.rule = "stream kind in {publisher, subscriber, requestor, replier} with generated settings (topic, retention, operations), backoff (constant/linear/exponential, step 1-5 ms, max_attempts 0-4, optional cap) and a fault script of 0-6 outages (server-side connection close), each placed after a generated amount of traffic, with 0..max+1 failing reconnect attempts (connection accepted then dropped, or registration answered with the retryable REPLIER_ALREADY_BOUND) before one succeeds, or a non-retryable error frame; against a scripted fake server built from the real server's TLS configuration; oracle: exact attempt accounting (k+1 on recovery, exactly max_attempts on exhaustion, k+1 before a fatal answer), identical re-registration frame, traffic works after recovery (for a requestor with a clone: the clone recovers on its own first request while the already recovered original has a call in flight that the server answers after 150 ms - that call may time out but must not fail otherwise - and afterwards both are used at once), too-many-retries / the unrecoverable error is reported instead of hanging; non-trivial = >=2 outages survived, or an outage with >=1 failing attempt, or exhaustion".into();
     ctx.assumptions.push("an item or request handed over while the loss is still being detected may be lost: the publisher oracle anchors on the first item that arrives on the new registration, the first request after a cut may time out once".into());
     ctx.assumptions.push("outages are server-side closes; silent packet loss (idle time-outs) is not generated".into());
     let env = match Env::new() {
